@@ -212,16 +212,35 @@ CHECKS["C09"] = dict(
 
 CHECKS["C01"] = dict(
     category="model_checking",
-    text="CLAIMED FOR A SLICE ONLY: the window and recurrence cores whose documented formula is exact on an integer lattice - "
-         "MovingSum, MovingMax, MovingMin, SMA at periods 1/2/4, OBV. spec/Window.tla holds the documented function of the window and "
-         "the construction the code uses (Duplicate, Shift(P,0), closure with running sum / multiset Insert-Remove, Skip(P-1)); TLC "
-         "compares both over every sequence over {-1,0,1,2} up to length 5-6 and P up to 3-4 and emits each with the documented "
-         "result; the real indicators are run on all of them and compared exactly.",
+    text="(1) spec/Formulas.tla transcribes the documented formula of 63 catalogue entries (57 of the 61 indicator types; not Po, "
+         "SuperTrend, Ichimoku's lagging span, Obv which is in part 2) from the doc comments, over exact rational arithmetic on "
+         "position-indexed series (operands are combined at the same position; a zero denominator gives Undef, which propagates). "
+         "TLC evaluates them on EVERY input word of length warm-up+3..4 over small alphabets (ties, zeros, flat bars with high = low, "
+         "zero volume, a negative number for numeric inputs) for periods 1..5 - 95 k words quick, 740 k thorough - and prints the exact "
+         "values; the harness runs the real indicators on the same words and every defined position is compared (tolerance 1e-9, "
+         "squares where the formula takes a root): 0.4 M positions quick, 4.1 M thorough. (2) spec/Window.tla: the documented window "
+         "function against the construction the code uses (Duplicate, Shift(P,0), running sum / multiset Insert-Remove, Skip) for "
+         "MovingSum/Max/Min/SMA and OBV's recurrence, compared exactly on the real indicators.",
     design_ref="DESIGN.md 2.3, 5 (C01), 6",
-    note="The arithmetic of the other ~55 indicator types (one pure float formula each) is numeric accuracy, which an explicit-state "
-         "TLA+ model cannot decide: NOT covered. Their stream structure (counts, alignment, look-ahead, termination) is covered by "
-         "C02-C04.",
-    technique="TLC comparison of documented window function vs the code's construction + exhaustive replay on the real indicators",
+    note="Trusted: TLC's evaluator, the transcription of the doc comments (where a doc comment leaves a seed or an average unstated - EMA "
+         "seed = SMA, RSI averages = RMA, KAMA seed = previous price - the library's stated convention is taken), float tolerance 1e-9. "
+         "Bounds: periods <= 5, words <= warm-up + 4, alphabets of 2-6 symbols; exact values must fit TLC's 32-bit integers, which "
+         "caps the word length of Kama, Trix, Ppo/Pvo, StochasticRsi. Positions with a zero denominator are exempt. Not covered: Po, "
+         "SuperTrend, Ichimoku lagging span (C02 finding), ill-conditioned float behaviour on real-valued data.",
+    technique="TLC evaluation of the transcribed documented formulas on all small words + replay of every word on the real indicators",
+    engine="tlc")
+
+CHECKS["C15"] = dict(
+    category="model_checking",
+    text="The range / ordering statements of the property are theorems about the documented formulas in spec/Formulas.tla (RangeOK, GeOK, "
+         "NonNegOK); TLC evaluates them exactly on every valid OHLCV / price word (long words over few symbols: flat and monotone runs, "
+         "flat bars, zero volume) for 23 indicator entries x periods 1..5, and the same statements are evaluated on the outputs the real "
+         "indicators deliver on those words, at every position (35 k words / 0.18 M statement instances quick, 365 k / 3.2 M thorough). "
+         "That the real values equal the documented ones at every defined position is C01's comparison on the same machinery.",
+    design_ref="DESIGN.md 2.3, 5 (C15)",
+    note="On the lattice only: small-integer words, periods <= 5; real-valued series and rounding effects near the bounds are outside "
+         "what TLC's exact arithmetic can enumerate. Positions with a zero denominator, and non-finite values carried on from them, are exempt.",
+    technique="TLC evaluation of range/ordering theorems on the documented formulas + the same statements on real outputs for every word",
     engine="tlc")
 
 CHECKS["C06"] = dict(
@@ -243,7 +262,6 @@ CHECKS["C06"] = dict(
     engine="tlc")
 
 NOT_APPLICABLE = {
-    "C15": "numeric range invariants of float formulas: no discrete state or transition for a TLA+ model to decide (DESIGN.md 6)",
     "C18": "relation between two float executions (homogeneity): numeric, not a state machine TLC can check (DESIGN.md 6)",
 }
 
